@@ -6,8 +6,8 @@
      client_base.py  parse_authn_request_response 803-811 (store only if assertion,
                      no EncryptedAssertion left, name_id)
      client.py       global_logout / do_logout / local_logout / is_logged_in /
-                     handle_logout_response / handle_logout_request (as of 73294247; the
-                     behaviour before de5f1fed / 73294247 is kept as the *_v0 definitions)
+                     handle_logout_response / handle_logout_request (as of 0bae05f7; the
+                     behaviour before de5f1fed / 73294247 / 0bae05f7 is kept as the *_v0 definitions)
    Subjects, issuers, session tokens and request ids are natural numbers (the
    harness maps NameIDs, entity ids, session infos and generated message ids to
    them).  Python dicts are insertion-ordered association lists.  The list object
@@ -270,6 +270,26 @@ Fixpoint logout_loop (w : world) (ans : list soap_answer) (s : subj) (ref : nat)
       end
   end.
 
+(* fix 0bae05f7, after a pass that did not raise: the IdPs that answered synchronously (SOAP, Success)
+   are removed from the shared list object; when that empties the list the local session ends.
+   Nothing of this happens when the pass raises (an exception in the loop, or LogoutError for not_done). *)
+Definition soap_answered (acc : list sent) : list issuer :=
+  flat_map (fun x => match x with SentSoap i => [i] | SentPending _ _ _ => [] end) acc.
+Definition remove_all (es l : list issuer) : list issuer := fold_left (fun l e => remove_first e l) es l.
+Definition finish_pass (s : subj) (ref : nat) (acc : list sent) (st : state) : state * out :=
+  match soap_answered acc with
+  | [] => (st, OSent acc)
+  | answered =>
+      let st2 := set_heap st ref (remove_all answered (heap st ref)) in
+      match heap st2 ref with
+      | [] => match local_logout st2 s with
+              | None => (st2, OExn KeyErr)
+              | Some st3 => (st3, OSent acc)
+              end
+      | _ => (st2, OSent acc)
+      end
+  end.
+
 Definition do_logout (w : world) (ans : list soap_answer) (s : subj) (ref : nat) (dl : option Z) (st : state)
   : state * out :=
   if deadline_passed (now st) dl then
@@ -281,7 +301,7 @@ Definition do_logout (w : world) (ans : list soap_answer) (s : subj) (ref : nat)
     let l := heap st ref in
     match logout_loop w ans s ref dl l st l [] with
     | (st', inl e) => (st', OExn e)
-    | (st', inr ([], acc)) => (st', OSent acc)
+    | (st', inr ([], acc)) => finish_pass s ref acc st'
     | (st', inr (_ :: _, _)) => (st', OExn LogoutErr)
     end.
 
@@ -405,10 +425,11 @@ Definition final (w : world) (st : state) (h : list op) : state :=
 (* ================================================================ the behaviour BEFORE the fixes de5f1fed
    (party check) and 73294247 (purge), kept for the refutation theorems:
    party = false : handle_logout_response does not compare the issuer with the addressee;
-   prg   = false : local_logout leaves the subject's pending requests in Saml2Client.state.
-   `step_v0 true true` is `step`. *)
+   prg   = false : local_logout leaves the subject's pending requests in Saml2Client.state;
+   soap  = false : (before 0bae05f7) do_logout does no bookkeeping for synchronous answers.
+   `step_v0 true true true` is `step`. *)
 Section V0.
-  Variables (party prg : bool).
+  Variables (party prg soap : bool).
   Definition local_logout_x (st : state) (s : subj) : option state :=
     if prg then local_logout st s else local_logout_v0 st s.
 
@@ -423,7 +444,7 @@ Section V0.
       let l := heap st ref in
       match logout_loop w ans s ref dl l st l [] with
       | (st', inl e) => (st', OExn e)
-      | (st', inr ([], acc)) => (st', OSent acc)
+      | (st', inr ([], acc)) => if soap then finish_pass s ref acc st' else (st', OSent acc)
       | (st', inr (_ :: _, _)) => (st', OExn LogoutErr)
       end.
 
